@@ -38,6 +38,17 @@ pub fn render(decls: &[Decl], dflt: u32, entry: &str, tg: (u32, u32, u32), uses:
     s += "void helper() {";
     for i in helper_uses.iter().filter(|i| usable(i)) { s += " "; s += &use_stmt(*i, &decls[*i]); }
     s += " }\n";
+    if entry == "VSPS" {
+        // two stages: the vertex stage mentions U directly, the pixel stage reaches H through the helper
+        s += "float4 VSMAIN(uint vid : SV_VertexID) : SV_Position {";
+        for i in uses.iter().filter(|i| usable(i)) { s += " "; s += &use_stmt(*i, &decls[*i]); }
+        s += " return float4(0.0, 0.0, 0.0, 1.0); }\n";
+        s += "float4 PSMAIN(float4 pos : SV_Position) : SV_Target0 { helper(); return pos; }\n";
+        s += "[numthreads(1, 1, 1)] void OTHER() { }\n";
+        s += &format!("Pipeline Main {{ VertexShader = VSMAIN; PixelShader = PSMAIN; DefaultBindGroup = {}; }}\n", dflt);
+        if second_pipeline { s += "Pipeline Second { ComputeShader = OTHER; }\n"; }
+        return s;
+    }
     s += &format!("[numthreads({}, {}, {})] void {}() {{ helper();", tg.0, tg.1, tg.2, entry);
     for i in uses.iter().filter(|i| usable(i)) { s += " "; s += &use_stmt(*i, &decls[*i]); }
     s += " }\n";
@@ -98,7 +109,7 @@ pub fn gen_cases(seed: u64, n: usize, _thorough: bool) -> Vec<String> {
         let u = pick(&mut rng);
         let h = pick(&mut rng);
         let mode = ["all", "name", "nopipe", "one"][rng.below(4) as usize];
-        let entry = if rng.chance(1, 3) { *rng.pick(&entries) } else { "CSMAIN" };
+        let entry = if rng.chance(1, 4) { "VSPS" } else if rng.chance(1, 3) { *rng.pick(&entries) } else { "CSMAIN" };
         let tg = (rng.range(1, 8), rng.range(1, 4), rng.range(1, 2));
         let ds: Vec<String> = decls.iter().map(|d| d.word()).collect();
         out.push(format!("{} {} {} {} {} {} {} U{} H{} {}", target, rng.below(3), mode, entry, tg.0, tg.1, tg.2, u, h, ds.join(" ")).trim_end().to_string());
